@@ -296,9 +296,12 @@ void reb_integrator_saba_part2(struct reb_simulation* const r){
     const int stages = reb_saba_stages(type);
     const unsigned int N = r->N;
     const unsigned int N_active = (r->N_active==-1 || r->testparticle_type==1)?N:(unsigned int)r->N_active;
-    if (ri_whfast->p_jh==NULL){
-        // Non recoverable error occured earlier. 
-        // Skipping rest of integration to avoid segmentation fault.
+    if (ri_whfast->p_jh==NULL || ri_whfast->N_allocated != N || stages==0 || r->N_var_config>0 ||
+            ri_whfast->coordinates!=REB_WHFAST_COORDINATES_JACOBI){
+        // Non recoverable error occured earlier: part1 returned before reb_integrator_whfast_init
+        // resized p_jh (p_jh is missing or still has the size of an earlier particle number), or the
+        // integrator type is invalid (type%0x100 would index the coefficient tables out of range).
+        // Skipping rest of integration to avoid out of bounds memory access.
         return;
     }
     
